@@ -62,6 +62,7 @@ def modOps (op : String) (a : List String) : Option String :=
   | "mod.closure", [sk, _] => let e := parseSkel sk; some (if (translate e e).isOk then "ok" else "FAIL:model-rejects")
   | "mod.mustfail", [sk, _] => let e := parseSkel sk; some (if (translate e e).isOk then "FAIL:model-accepts" else "ok")
   | "mod.accept", [sk, _] => let e := parseSkel sk; some (if (translate e e).isOk then "ok" else "FAIL:model-rejects")
+  | "conc.readonly", [_] => some "ok"
   | "mod.keeps", [_, _] => some "ok"
   | "mod.pollute", [_, _] => some "ok"
   | "mod.fix", [_, _] => some "ok"
